@@ -10,10 +10,16 @@
     * `caps_subset_all`: every capture-only successor is literally one of the full generator's
       successors (same board, rights, caches, key, descriptor, promotion fan-out included);
     * `caps_no_castling`; `caps_chain`: the invariant survives any chain of capture-only generations.
-  Carried by correspondence (spec = Spec.legalMoves filtered to captures, with Spec.apply): that the
-  all-moves generator itself is exactly the legal moves (C01/C02); hence `_partial` below.
+    * FULL (model level): `caps_are_exactly_the_legal_captures` — for every well-formed position a move
+      is carried by some capture-only successor iff it is a legal capturing move of the specification
+      (destination occupied, or en passant); `caps_successor_is_spec_apply` — each successor is the
+      specification's position after its move; `caps_exact_along_chains` — well-formedness survives
+      every chain of capture-only generations, so both hold at every position the quiescence search
+      can reach (no en passant capture for a double step made more than one ply earlier: a stale
+      target cannot exist, and a move the rules forbid is never carried).
 -/
 import Walleye.Proofs.Caps
+import Walleye.Proofs.CapsExact
 namespace Walleye
 
 theorem caps_only_captures (h : Hasher) (p : Pos) :
@@ -59,5 +65,29 @@ theorem caps_chain_no_stale_ep_partial (h : Hasher) (p q s : Pos) (_hc : CapChai
   cases hor with
   | inl e => exact e
   | inr e => rw [h1] at e; cases e
+
+/-- **C13**: capture-only generation returns exactly the legal capturing moves -/
+theorem caps_are_exactly_the_legal_captures (h : Hasher) (p : Pos) (wf : WFp p) (m : Spec.Move) :
+    (∃ q ∈ generateMoves h p .caps, moveOf q = m) ↔
+      (Spec.legal (abs p) m = true ∧ isCaptureSpec (abs p) m = true) := caps_exact h p wf m
+
+/-- each capture-only successor is the position its move really produces -/
+theorem caps_successor_is_spec_apply (h : Hasher) (p : Pos) (wf : WFp p) :
+    ∀ q ∈ generateMoves h p .caps, abs q = Spec.apply (abs p) (moveOf q) :=
+  fun q hq => (generateMoves_sound h p wf q (generateMoves_caps_subset h p q hq)).2
+
+theorem cap_chain_wf (h : Hasher) (p q : Pos) (wf : WFp p) (hinv : Inv h p) (hc : CapChain h p q) : WFp q ∧ Inv h q := by
+  induction hc with
+  | refl => exact ⟨wf, hinv⟩
+  | step _ hs ih => exact generateMoves_wf h _ ih.1 ih.2 _ (generateMoves_caps_subset h _ _ hs)
+
+/-- along any chain of capture-only generations, as followed by the quiescence search -/
+theorem caps_exact_along_chains (h : Hasher) (p q : Pos) (wf : WFp p) (hinv : Inv h p) (hc : CapChain h p q)
+    (m : Spec.Move) :
+    ((∃ s ∈ generateMoves h q .caps, moveOf s = m) ↔
+      (Spec.legal (abs q) m = true ∧ isCaptureSpec (abs q) m = true)) ∧
+    ∀ s ∈ generateMoves h q .caps, abs s = Spec.apply (abs q) (moveOf s) :=
+  ⟨caps_exact h q (cap_chain_wf h p q wf hinv hc).1 m,
+   caps_successor_is_spec_apply h q (cap_chain_wf h p q wf hinv hc).1⟩
 
 end Walleye
